@@ -46,7 +46,17 @@ func init() {
 		}
 		for _, pk := range []string{"0chain.net/core/encryption", "github.com/0chain/common/core/encryption"} {
 			externals[pk+".RawHash"] = func(fr *frame, args []value) value { return bytesToValues(rawHash(fr, args)) }
-			externals[pk+".Hash"] = func(fr *frame, args []value) value { return hex.EncodeToString(rawHash(fr, args)) }
+			externals[pk+".Hash"] = func(fr *frame, args []value) value {
+				h := hex.EncodeToString(rawHash(fr, args))
+				it := args[0].(iface)
+				switch v := it.v.(type) {
+				case string:
+					fr.i.p.recordHash(h, v)
+				case []value:
+					fr.i.p.recordHash(h, string(valuesToBytes(v)))
+				}
+				return h
+			}
 		}
 		externals["golang.org/x/crypto/sha3.Sum256"] = func(fr *frame, args []value) value {
 			h := sha3.Sum256(valuesToBytes(args[0].([]value)))
